@@ -53,7 +53,7 @@ def _rt(op, sig):
 
 def _enum_outcome(goal, n, bad, replay_prefix="native evaluation", allow_empty=False):
     if bad:
-        return Outcome("refuted", detail=bad[0][:600], goal=goal, paths=n, queries=n, backend="evaluation", model={"case": bad[0][:400], "more": len(bad) - 1},
+        return Outcome("refuted", detail=bad[0][:600], goal=goal, paths=n, queries=n, backend="evaluation", model={"case": bad[0][:400], "more": len(bad) - 1, "all": [b[:300] for b in bad[:80]]},
                        replay={"reproduced": True, "text": f"{replay_prefix}: {bad[0][:500]} ({len(bad)} failing tuples)"})
     if n == 0 and not allow_empty:
         return Outcome("undecided", detail="nothing enumerated", goal=goal)
